@@ -68,6 +68,7 @@ SpecStep(c) ==
          [] e.a = "put"     -> Put(c, e.rf)
          [] e.a = "decline" -> Decline(c)
          [] e.a = "err"     -> Err(c, e.rf)
+         [] e.a = "bad"     -> Bad(c, e.rf)
     /\ LET h == hist'[Len(hist')] IN h.a = e.a /\ h.c = c /\ h.e = e.e /\ h.in = AsVal(e.in)
     /\ pos' = [pos EXCEPT ![c] = @ + 1]
     /\ l' = l /\ wpos' = wpos
